@@ -12,39 +12,48 @@ import re
 from .common import Ctx, Driver
 
 MANIFEST = dict(
-    text=("Lean theorems for every codec record (canEnc/enc/dec; the laws AsciiOK, RoundTrip, AsciiCompat are explicit hypotheses, tested "
-          "per case on the real codecs), every tree, every string: str.encode(C,'xmlcharrefreplace') always returns bytes = strict "
-          "encoding of the string with unencodable code points as &#N; (encodeWith_total, encode_total for encode/prettify(enc)/"
-          "encode_contents; strict_raises_iff + encode_contents_strict_raises = 4.13.0's encode_contents); the bytes decode to that string "
-          "(bytes_decode, entry_points_decode, table_codecs_lawful for the generated CPython single-byte tables); reading the replaced, "
-          "entity-substituted text / quoted attribute value as html.parser+bs4 / html.unescape do gives the value back unless it holds an "
-          "unencodable C1 control (or, in attributes, noncharacter/surrogate) (lossless_text, lossless_attr over the generated "
-          "windows-1252 and html.unescape tables; lossless_*_needs_safe are the decided counterexamples = the two known findings); "
-          "<meta charset>/<meta http-equiv=content-type content> get placeholders at parse time and render with the target's name, '' / "
-          "removed for PYTHON_SPECIFIC_ENCODINGS, untouched for eventual_encoding=None (meta_rewritten_charset, meta_untouched(_charset), "
-          "meta_content_placeholder, meta_both_styles, setUp_old_agrees, meta_rewritten_content_partial and meta_rewritten_content_verbatim for ANY target name (digits, "
-          "backslashes, \\g<1>…: the rewrite is literal), content_rewritten_spellings and charset_re_tolerant over the generated "
-          "shape of the live CHARSET_RE, xml_declaration, python_specific_table); a declared-charset finder returns the target name on the "
-          "bytes of an ASCII-compatible codec (redetect_charset_partial, redetect_content_partial). Tie: differential runs of the real code "
-          "against the Lean model (xmlcharrefreplace/strict byte-for-byte on 15 single-byte codecs and string-level on the others, "
-          "CHARSET_RE.sub/search, set_up_substitutions, decode/prettify/decode_contents renderings, the reader on the writer's image) and "
-          "the direct oracle on generated documents x encodings x entry points (bytes; decode; re-parse recovers values; declaration; "
-          "original_encoding of a re-parse). Target names are drawn from the spellings codecs.lookup accepts — digit-leading labels "
-          "('866', '437', '1252', '8859'…), mixed case, other separators and regex/format metacharacters ('utf\\8', 'utf$8', "
-          "'UTF{8', 'latin\\1', '(utf8)') — every accepted spelling x 4 declarations x every entry point each run; old declared "
-          "values and their neighbours carry digits and template metacharacters too."),
+    text=("Lean theorems for every codec record (canEnc/enc/dec; the laws AsciiOK, RoundTrip, AsciiCompat are explicit hypotheses — satisfied, "
+          "with proofs, by the seven UTF codecs modelled byte for byte (utf_codecs_lawful: UTF-8/16/32, LE/BE and BOM-writing) and by every "
+          "generated CPython single-byte decode table (sb_table_codec_laws over the whole table), and tested per case on the other real "
+          "codecs), every tree, every string. SUCCEEDS: str.encode(C, errors) for errors in strict/ignore/replace/xmlcharrefreplace/"
+          "backslashreplace; every handler but strict always returns bytes = strict encoding of the handled string (encodeWith_total, "
+          "encode_total for encode/prettify(enc)/encode_contents, encode_errors_total for Tag.encode(errors=…), strict_raises_iff, "
+          "encode_contents_strict_raises = 4.13.0, handlers_agree_on_encodable, other_handlers_lose). DECODES: bytes_decode, "
+          "entry_points_decode, bytes_decode_errors. FALLBACK: fallback_every_code_point (c itself or &#dec; — ASCII, <= 10 chars, digits read "
+          "back), fallback_by_codec_class (single-byte: not in the table; UTFs: exactly the lone surrogates), utf_needs_no_references, "
+          "encode_default_is_utf8. LOSSLESS: lossless_text / lossless_attr (reading back the replaced, entity-substituted text / quoted "
+          "value as html.parser+bs4 / html.unescape do, over the generated windows-1252 and html.unescape tables; hypothesis CharrefSafe; "
+          "lossless_*_needs_safe = the two known findings, decided) and encoding_touches_values_only (tree level: xmlcharrefreplace "
+          "commutes with rendering, the markup skeleton is untouched). DECLARATION: meta_rewritten_charset, meta_content_placeholder "
+          "(string or list-valued http-equiv), meta_both_styles (+ setUpSubstitutionsOld / meta_both_styles_old_stale / setUp_old_agrees), "
+          "meta_rewritten_content (general shape: any quiet prefix incl. earlier parameters, every key spelling the live pattern accepts, "
+          "any value, any target name, continuation), meta_rewritten_content_last, meta_rewritten_content_verbatim, "
+          "meta_python_specific_only_removes, content_rewritten_spellings + charset_re_tolerant (decided over the generated shape of the "
+          "live CHARSET_RE; line-start form), xml_declaration, python_specific_table / isPythonSpecific_iff (whole table). UNTOUCHED: "
+          "meta_untouched(_charset), decode_without_encoding_ignores_placeholders (whole tree, every indentation), and "
+          "str_rendering_names_default (str()/decode()/prettify() default to utf-8: NOT untouched). RE-DETECTION: redetect_charset / redetect_content "
+          "against C07's model of dammit's html_meta regex (BS.EncodingIn.htmlSearch: leftmost <meta, greedy, LAST charset= of the tag) — "
+          "any ASCII prefix in which that regex finds nothing, the tag as _format_tag writes it, any name, any ASCII-compatible codec, "
+          "anything after; redetect_*_first_match for the simple first-match finder; redetect_bom (+ needs_nonzero_start witness). What "
+          "UnicodeDammit does with the found name (codecs.lookup, trial decoding) is C07's and is checked here on the real code only. Tie: differential runs of the real code against the Lean model — str.encode for 5 handlers byte for byte on 15 "
+          "single-byte + 7 UTF codecs and string-level elsewhere, the strict UTF decoders on damaged bytes, BOM sniffing, CHARSET_RE.sub/"
+          "search, set_up_substitutions (incl. list-valued http-equiv), decode/prettify/decode_contents/str() renderings with list and None "
+          "attribute values, Tag.encode(errors=…), the reader on the writer's image — and the direct oracle on generated documents x "
+          "encodings x entry points (bytes; decode; re-parse recovers values; declaration; original_encoding of a re-parse), with target "
+          "names from every spelling codecs.lookup accepts and call histories (repeated calls, copies, pickles) on the same object."),
     design="7/C08",
-    note=("Codecs are parameters with hypotheses, grounded by testing each real codec's laws on the characters of the case: (codec, "
-          "character) pairs where CPython's codec is not round-trip lawful (shift_jis/euc-jp U+00A5 U+203E, cp932 U+00A2.., euc-kr U+3164, "
-          "iso-2022-kr SO/SI, …) are dropped from the case and counted (excluded:unlawful-pair). Known findings re-observed from "
-          "behaviour each run: C1 controls via &#128;–&#159;, noncharacters in attribute values. A <meta> with both declaration styles "
-          "must have both rewritten (repaired set_up_substitutions: `if … if …`; setUpSubstitutionsOld + meta_both_styles_old_stale "
-          "keep the 4.13.0 behaviour as a witness). Text inside script/style and comments is "
-          "written raw, so an unencodable character there becomes a literal &#N; that no reader undoes: outside the quantifier "
-          "(\"text/attributes\"), exercised for 'succeeds and decodes' only and counted. prettify: values compared modulo strip(). "
-          "The reader model covers only the writer's image (C09 owns the reader); the finder of `redetect_*` is a simplification of "
-          "dammit's regex (C07 owns it); the full re-detection claim is checked on the real code."),
-    technique="Lean 4 proof over abstract lawful codecs + generated tables + differential correspondence + direct Python oracle",
+    note=("Codec laws are hypotheses, grounded by proofs for the modelled codecs and by testing each other real codec on the characters of "
+          "the case: (codec, character) pairs where CPython's codec is not round-trip lawful (shift_jis/euc-jp U+00A5 U+203E, cp932 U+00A2.., "
+          "euc-kr U+3164, iso-2022-kr SO/SI, hz on long strings …) are dropped and counted. Known findings re-observed from behaviour each "
+          "run: C1 controls via &#128;–&#159; and noncharacters in attribute values (neither repairable in bs4: HTML5 defines &#128;–&#159; "
+          "as windows-1252 whatever the numeric form, and attribute values are unescaped by stdlib html.unescape before bs4 sees them), and "
+          "C08-pickle-rewrites-declaration (BeautifulSoup.__getstate__ renders with the default eventual_encoding; candidate repair in "
+          "fixes/). Not modelled: errors=namereplace/surrogateescape/surrogatepass, formatters other than 'minimal' (oracle only), "
+          "string-literal mode details beyond pre/textarea. Text inside script/style and comments is written raw: outside the quantifier, "
+          "exercised for 'succeeds and decodes' only and counted. prettify: values compared modulo strip(). The reader model covers only "
+          "the writer's image (C09 owns the reader); redetect_charset/redetect_content import C07's Model/EncodingIn.lean (read only): "
+          "a change of that model can break these two proofs."),
+    technique="Lean 4 proof over abstract lawful codecs (+ concrete UTF/table codecs) + generated tables + differential correspondence + direct Python oracle",
 )
 
 ENCODINGS = ["ascii", "latin-1", "windows-1252", "iso-8859-2", "iso-8859-5", "iso-8859-7", "iso-8859-8", "iso-8859-15", "koi8-r",
@@ -134,6 +143,8 @@ def pick_encoding(r):
 BOM_WRITERS = {"utf-16": "utf-16", "utf-32": "utf-32"}
 KF_C1 = "C08-c1-controls-via-charref"
 KF_NONCHAR = "C08-noncharacters-in-attributes"
+KF_PICKLE = "C08-pickle-rewrites-declaration"
+KF_HTML5 = "C08-html5-formatter-empty-charset"
 ASCII_SPACES = " \n\t\x0c\r"
 
 
@@ -222,10 +233,28 @@ def facts(enc) -> CodecFacts:
     return _FACTS[enc]
 
 
-def codec_tok(enc, s):
-    """protocol codec for `enc` restricted to the characters of `s`"""
+UTF_LEAN = {"utf-8": "utf-8", "utf-16": "utf-16", "utf-16-le": "utf-16-le", "utf-16-be": "utf-16-be", "utf-32": "utf-32",
+            "utf-32-le": "utf-32-le", "utf-32-be": "utf-32-be"}
+HANDLERS = {"strict": "s", "ignore": "i", "replace": "r", "xmlcharrefreplace": "x", "backslashreplace": "b"}
+
+
+def lean_codec(enc):
+    """the Lean codec that is this encoding byte for byte: a generated single-byte table or one of the UTFs; else None"""
     if sb_name(enc):
         return "sb:" + tok(sb_name(enc))
+    try:
+        n = codecs.lookup(enc).name
+    except LookupError:
+        return None
+    if n in UTF_LEAN:
+        return "utf:" + tok(UTF_LEAN[n])
+    return None
+
+
+def codec_tok(enc, s):
+    """protocol codec for `enc` restricted to the characters of `s`"""
+    if lean_codec(enc):
+        return lean_codec(enc)
     f = facts(enc)
     encodable = sorted({c for c in s if ord(c) >= 128 and f.can(c)})
     return "set:1:" + tok("".join(encodable))
@@ -331,7 +360,7 @@ def rand_value(r, enc, ctx, bait=None, maxlen=8):
 # <meta> declarations
 # --------------------------------------------------------------------------------------
 KEY_CASES = ["charset", "charset", "CHARSET", "Charset", "charSet", "cHaRsEt"]
-WS_EQ = ["", "", " ", "  ", "\t"]
+WS_EQ = ["", "", " ", "  ", "\t"]   # around `=`: ASCII only — the input-side detector (a bytes pattern) reads nothing else there
 MIMES = ["text/html", "text/html", "application/xhtml+xml", "text/html ", "x", "text/html\\1", "\\g<2>", "(text)/html$"]
 OLD_NAMES = ["utf8", "utf-8", "ISO-8859-1", "windows-1252", "x", "koi8-r", "shift_jis", "",
              # digits and regex/format metacharacters: the rewrite must be literal both ways
@@ -355,7 +384,7 @@ def content_expected(p, e, pyspec):
 def rand_content_decl(r):
     """the parts of a content value; every spelling is one that the input-side detector (dammit: case-insensitive, white
     space around `=`) reads as a declaration"""
-    return dict(mime=r.choice(MIMES), sep=r.choice([";", ";", ";", ";", "\n"]), before=r.choice(["", "", "", "; x=y", ";a=b", "; x=\\1", ";\\g<1>=%s"]), w0=r.choice(["", " ", " ", "  ", "\n", "\n "]),
+    return dict(mime=r.choice(MIMES), sep=r.choice([";", ";", ";", ";", "\n"]), before=r.choice(["", "", "", "; x=y", ";a=b", "; x=\\1", ";\\g<1>=%s"]), w0=r.choice(["", " ", " ", "  ", "\n", "\n ", " ", "\xa0", "\u3000"]),   # before the key anything `\s` (str pattern: Unicode) may stand
                 key=r.choice(KEY_CASES), w1=r.choice(WS_EQ), w2=r.choice(WS_EQ), old=r.choice(OLD_NAMES),
                 after=r.choice(["", "", "", "; x=y", ";q", ";", "; y=\\g<1>", ";\\2{0}$"]))
 
@@ -413,7 +442,14 @@ def gen_items(r, enc, ctx, depth, counter):
                 bait = "nonchar"
             attrs.append([an, rand_value(r, enc, ctx, bait), bait])
         kids = [] if void or depth >= 2 else gen_items(r, enc, ctx, depth + 1, counter)
-        items.append({"name": name, "id": my_id, "attrs": attrs, "kids": kids})
+        item = {"name": name, "id": my_id, "attrs": attrs, "kids": kids}
+        if r.random() < 0.2:
+            # a multi-valued attribute: a list value, written as " ".join (items without white space, as a re-parse splits there)
+            cls = ["".join(ch for ch in rand_value(r, enc, ctx, None, 4) if not ch.isspace()) for _ in range(r.choice([1, 2, 3]))]
+            item["cls"] = [c for c in cls if c]
+        if r.random() < 0.08:
+            item["none_attr"] = True   # a value None (plain-dict attrs): written as the bare name
+        items.append(item)
     return items
 
 
@@ -431,9 +467,39 @@ def build_doc(recipe):
                 t["id"] = it["id"]
                 for an, v, _ in it["attrs"]:
                     t[an] = v
+                if it.get("cls"):
+                    t["class"] = list(it["cls"])
+                if it.get("none_attr"):
+                    t.attrs = dict(t.attrs)
+                    t.attrs["data-none"] = None
                 parent.append(t)
                 add(t, it["kids"])
     add(soup.body, recipe["items"])
+    return soup
+
+
+def apply_history(soup, history):
+    """earlier calls on the same object (results discarded) and copies of it: none of this may change what a later
+    rendering says — placeholders are not consumed, cached or lost"""
+    import copy
+    import pickle
+    for step in history or []:
+        op = step[0]
+        try:
+            if op == "call":
+                call_entry(soup, step[1], step[2])
+            elif op == "decode":
+                soup.decode(eventual_encoding=step[1])
+            elif op == "str":
+                str(soup)
+            elif op == "copy":
+                soup = copy.copy(soup)
+            elif op == "deepcopy":
+                soup = copy.deepcopy(soup)
+            elif op == "pickle":
+                soup = pickle.loads(pickle.dumps(soup))
+        except Exception:
+            pass   # a raising call is a violation where that call is itself the case; here only its after-effects matter
     return soup
 
 
@@ -457,6 +523,10 @@ def tree_tokens(tag):
                     out.extend([tok(k), "c", tok(v.original_value)])
                 elif isinstance(v, el.ContentMetaAttributeValue):
                     out.extend([tok(k), "m", tok(v.original_value)])
+                elif v is None:
+                    out.extend([tok(k), "n", "-"])
+                elif isinstance(v, (list, tuple)):
+                    out.extend([tok(k), "l", ";".join(tok(x) for x in v) if v else "_"])
                 else:
                     out.extend([tok(k), "p", tok(str(v))])
             out.append(str(len(n.contents)))
@@ -549,15 +619,27 @@ def check_encode_string(ctx, batch, enc, s, stream):
             lawful = ref.encode(enc).decode(enc) == ref
         except UnicodeError:
             lawful = False
-    sb = sb_name(enc)
-    if sb:
-        batch.ask(stream, f"enc sb:{tok(sb)} x {tok(s)}", "B:" + btok(out), case, want="B:" + btok(ref.encode(enc)))
+    lc = lean_codec(enc)
+    if lc:
+        batch.ask(stream, f"enc {lc} x {tok(s)}", "B:" + btok(out), case, want="B:" + btok(ref.encode(enc)))
+        batch.ask(stream, f"dec {lc} {btok(out)}", tok(out.decode(enc)), case)
+    # every error handler: byte for byte where Lean has the codec, else on the decoded string (identity "bytes")
+    for hname, h in HANDLERS.items():
+        if hname == "xmlcharrefreplace":
+            continue
         try:
-            strict = "B:" + btok(s.encode(enc))
+            real = "B:" + btok(s.encode(enc, hname))
         except UnicodeEncodeError as ex:
-            strict = f"E:{ex.start}:{ord(s[ex.start])}"
-        batch.ask(stream, f"enc sb:{tok(sb)} s {tok(s)}", strict, case)
-        batch.ask(stream, f"dec sb:{tok(sb)} {btok(out)}", tok(out.decode(enc)), case)
+            real = f"E:{ex.start}:{ord(s[ex.start])}"
+        if lc:
+            batch.ask(stream + "-errors", f"enc {lc} {h} {tok(s)}", real, case | {"errors": hname})
+        elif lawful and f.ascii_ok:
+            if real.startswith("B:"):
+                try:
+                    real = "B:" + tok(s.encode(enc, hname).decode(enc))
+                except UnicodeError:
+                    continue
+            batch.ask(stream + "-errors", f"enc {codec_tok(enc, s)} {h} {tok(s)}", real, case | {"errors": hname})
     if lawful:
         try:
             back = out.decode(enc)
@@ -691,9 +773,14 @@ def stream_setup(ctx, batch):
         keys = list(attrs)
         r.shuffle(keys)
         markup = "<" + name + "".join(f' {k}="{attrs[k]}"' for k in keys) + ">"
-        soup = e["BeautifulSoup"](markup, "html.parser")
+        multi = r.random() < 0.25   # http-equiv as a multi-valued attribute: set_up_substitutions reads it through get_attribute_list
+        if multi and "http-equiv" in attrs and r.random() < 0.6:
+            attrs["http-equiv"] = r.choice(["refresh Content-Type", "CONTENT-TYPE x", "a b", "content-type"])
+            markup = "<" + name + "".join(f' {k}="{attrs[k]}"' for k in keys) + ">"
+        soup = e["BeautifulSoup"](markup, "html.parser", **({"multi_valued_attributes": {"*": ["http-equiv"]}} if multi else {}))
         tag = soup.find(name)
-        kinds = {k: ("c" if isinstance(v, el.CharsetMetaAttributeValue) else "m" if isinstance(v, el.ContentMetaAttributeValue) else "p")
+        kinds = {k: ("c" if isinstance(v, el.CharsetMetaAttributeValue) else "m" if isinstance(v, el.ContentMetaAttributeValue)
+                     else "l" if isinstance(v, list) else "p")
                  for k, v in tag.attrs.items()}
         # the property statement
         want = {k: "p" for k in attrs}
@@ -701,13 +788,20 @@ def stream_setup(ctx, batch):
             # each declaration style on its own: a tag may carry both, and then both must be rewritable
             if "charset" in attrs:
                 want["charset"] = "c"
-            if "content" in attrs and attrs.get("http-equiv", "").lower() == "content-type":
+            he = attrs.get("http-equiv")
+            he_items = [] if he is None else (he.split() if multi else [he])
+            if "content" in attrs and any(x.lower() == "content-type" for x in he_items):
                 want["content"] = "m"
             if want.get("charset") == "c" and want.get("content") == "m":
                 ctx.count("setup:both-styles-in-one-meta")
+        if multi and "http-equiv" in attrs:
+            want["http-equiv"] = "l"
+            ctx.count("setup:http-equiv-list")
         case = {"op": "setup", "markup": markup}
         real = " ".join(f"{tok(k)}:{kinds[k]}" for k in tag.attrs) or "-"
-        line = f"setup {tok(name)} {len(tag.attrs)} " + " ".join(f"{tok(k)} {tok(str(v))}" for k, v in tag.attrs.items())
+        line = f"setup {tok(name)} {len(tag.attrs)} " + " ".join(
+            (f"{tok(k)} l {';'.join(tok(x) for x in v) if v else '_'}" if isinstance(v, list) else f"{tok(k)} p {tok(str(v))}")
+            for k, v in tag.attrs.items())
         batch.ask("setup", line.strip(), real, case, want=" ".join(f"{tok(k)}:{want[k]}" for k in tag.attrs) or "-")
         if kinds != want:
             report(ctx, "set_up_substitutions installs the wrong placeholders", case=case, expected=want, observed=kinds, stream="setup")
@@ -722,24 +816,24 @@ def stream_setup(ctx, batch):
 ENTRIES = ["encode", "prettify", "encode_contents", "encode_contents_body"]
 
 
-def call_entry(soup, entry, enc):
+def call_entry(soup, entry, enc, formatter="minimal"):
     if entry == "encode":
-        return soup.encode(enc)
+        return soup.encode(enc, formatter=formatter)
     if entry == "prettify":
-        return soup.prettify(enc)
+        return soup.prettify(enc, formatter=formatter)
     if entry == "encode_contents":
-        return soup.encode_contents(encoding=enc)
-    return soup.body.encode_contents(encoding=enc)
+        return soup.encode_contents(encoding=enc, formatter=formatter)
+    return soup.body.encode_contents(encoding=enc, formatter=formatter)
 
 
-def rendered_ref(soup, entry, enc):
+def rendered_ref(soup, entry, enc, formatter="minimal"):
     if entry == "encode":
-        return soup.decode(eventual_encoding=enc)
+        return soup.decode(eventual_encoding=enc, formatter=formatter)
     if entry == "prettify":
-        return soup.decode(indent_level=0, eventual_encoding=enc)
+        return soup.decode(indent_level=0, eventual_encoding=enc, formatter=formatter)
     if entry == "encode_contents":
-        return soup.decode_contents(eventual_encoding=enc)
-    return soup.body.decode_contents(eventual_encoding=enc)
+        return soup.decode_contents(eventual_encoding=enc, formatter=formatter)
+    return soup.body.decode_contents(eventual_encoding=enc, formatter=formatter)
 
 
 def expected_bom_codec(out, enc):
@@ -751,7 +845,7 @@ def expected_bom_codec(out, enc):
     return n
 
 
-def check_doc(ctx, batch, recipe, enc, entry, stream):
+def check_doc(ctx, batch, recipe, enc, entry, stream, history=None, formatter="minimal"):
     """oracle (a)-(d) for one document, one target encoding, one entry point. Returns the violations found (for replay)."""
     e = E()
     NS = e["el"].NavigableString
@@ -759,16 +853,21 @@ def check_doc(ctx, batch, recipe, enc, entry, stream):
     f = facts(enc)
     found = []
     case = {"op": "doc", "recipe": recipe, "encoding": enc, "entry": entry}
+    if history:
+        case["history"] = history
+    if formatter != "minimal":
+        case["formatter"] = formatter   # entity substitution by name on top of the charset substitution (oracle only)
+        batch = None
 
     def viol(what, expected=None, observed=None, kf=None, kind=None):
         found.append((what, expected, observed, kf))
         report(ctx, what, kind=kind, case=case, expected=expected, observed=observed, stream=stream, kf=kf)
 
-    soup = build_doc(recipe)
+    soup = apply_history(build_doc(recipe), history)
     pretty = entry == "prettify"
     # (a) bytes, always
     try:
-        out = call_entry(soup, entry, enc)
+        out = call_entry(soup, entry, enc, formatter)
     except UnicodeError as ex:
         viol(f"{entry}({enc!r}) raised {type(ex).__name__} instead of writing a numeric character reference",
              expected="bytes", observed=repr(ex)[:300], kind="raises:" + entry)
@@ -783,7 +882,7 @@ def check_doc(ctx, batch, recipe, enc, entry, stream):
         viol(f"{entry}({enc!r}) did not return bytes", observed=type(out).__name__)
         return found
     # unencodable characters appear as decimal references, everything else as rendered
-    ref = f.xcr_ref(rendered_ref(soup, entry, enc))
+    ref = f.xcr_ref(rendered_ref(soup, entry, enc, formatter))
     # the codec's round-trip law on the very string that is encoded (strict, no bs4 involved): CPython's stateful codecs
     # (hz: `~` escaping lost after mode switches) can fail it on a long string although every character passes alone
     try:
@@ -821,6 +920,13 @@ def check_doc(ctx, batch, recipe, enc, entry, stream):
                     viol("attribute value not recovered from the encoded output", expected=ascii(v), observed=ascii(got), kf=kf)
                 elif bait:
                     ctx.count("doc:bait-survived:" + bait)
+            if it.get("cls"):
+                got = t2.get("class")
+                if any(not f.can(ch) for x in it["cls"] for ch in x):
+                    nontrivial = True
+                if got != it["cls"]:
+                    viol("multi-valued attribute (class) not recovered from the encoded output", expected=ascii(it["cls"]), observed=ascii(got))
+                ctx.count("doc:list-valued-attribute")
             texts = [x["text"] for x in it["kids"] if "text" in x]
             got = direct_text(t2, NS)
             if pretty:
@@ -844,12 +950,15 @@ def check_doc(ctx, batch, recipe, enc, entry, stream):
         m2 = again.find("meta")
         plain = bool(PLAIN_NAME.match(enc))   # a name a reader's regex can take back verbatim (no white space, `/ ; ' " < > &`)
         both = bool(info.get("both"))
+        # classifier of the html5-formatter finding, from the case: that formatter, an HTML5-style declaration, empty old value
+        kf_h = KF_HTML5 if formatter == "html5" and style == "charset" and info.get("orig") == "" else None
         ctx.count("doc:name:" + ("digit-leading" if enc[:1].isdigit() else "metachar" if re.search(r"[^A-Za-z0-9_\- ]", enc) else
                                  "canonical" if enc in ENCODINGS else "alias"))
         if style == "charset" or plain:
             got = declared_in(m2, style) if m2 is not None else None
             if got != enc:
-                viol("the <meta> declaration in the output does not name the target encoding (as given)", expected=enc, observed=got)
+                viol("the <meta> declaration in the output does not name the target encoding (as given)", expected=enc, observed=got,
+                     kf=kf_h)
         if both and plain and m2 is not None and declared_in(m2, "content") != enc:
             viol("a <meta> carrying both declaration styles: the one in `content` still names the old encoding",
                  expected=enc, observed=declared_in(m2, "content"))
@@ -867,14 +976,34 @@ def check_doc(ctx, batch, recipe, enc, entry, stream):
             want = expected_bom_codec(out, enc)
             if oen != want:
                 viol("re-parsing the output auto-detects a different encoding (compared through codecs.lookup)", expected=want,
-                     observed=oe)
+                     observed=oe, kf=kf_h)
             ctx.count("doc:redetect:" + ("bom" if f.norm in ("utf-16", "utf-32") else "declared"))
     elif style == "none" and f.norm in ("utf-16", "utf-32") and entry != "encode_contents_body":
         oe = BS(out, "html.parser").original_encoding
         if codecs.lookup(oe).name != expected_bom_codec(out, enc):
             viol("re-parsing BOM-carrying output auto-detects a different encoding", expected=expected_bom_codec(out, enc), observed=oe)
         ctx.count("doc:redetect:bom")
+    # argument forms: the deprecated alias and the positional spelling go through the same code
+    if formatter == "minimal":
+        try:
+            if entry == "encode_contents_body":
+                alt = soup.body.renderContents(enc)
+                what = "renderContents(encoding) differs from encode_contents(encoding=encoding)"
+            elif entry == "encode":
+                alt = soup.encode(enc, None, "minimal", "xmlcharrefreplace")
+                what = "encode(encoding, None, 'minimal', 'xmlcharrefreplace') (positional) differs from encode(encoding)"
+            elif entry == "encode_contents":
+                alt = soup.encode_contents(None, enc, "minimal")
+                what = "encode_contents(None, encoding, 'minimal') (positional) differs from encode_contents(encoding=encoding)"
+            else:
+                alt = soup.encode(enc, 0)
+                what = "encode(encoding, 0) differs from prettify(encoding)"
+            if alt != out:
+                viol(what, expected=ascii(out[:200]), observed=ascii(alt[:200]), kind="argument-form")
+        except Exception as ex:
+            viol(f"an equivalent argument form of {entry} raised {type(ex).__name__}", observed=repr(ex)[:200], kind="argument-form")
     ctx.count(f"doc:entry:{entry}")
+    ctx.count(f"doc:formatter:{formatter}")
     ctx.count(f"doc:meta:{style}")
     ctx.count("doc:enc-kind:" + ("single-byte" if sb_name(enc) else "utf" if f.norm.startswith("utf") else "multi-byte"))
     ctx.case(("doc", json.dumps(recipe, sort_keys=True), enc, entry) if nontrivial else None,
@@ -891,19 +1020,32 @@ def check_doc(ctx, batch, recipe, enc, entry, stream):
             real_str = "RAISED " + type(ex).__name__
         tt = tree_tokens(node)
         batch.ask("doc-render", f"render {mode} {tok(enc)} {tt}", tok(real_str), case)
-        if sb_name(enc):
+        lc = lean_codec(enc)
+        if lc:
             ent = {"encode": "e", "prettify": "p", "encode_contents": "c", "encode_contents_body": "c"}[entry]
             real_b = {"e": lambda: root.encode(enc), "p": lambda: root.prettify(enc), "c": lambda: node.encode_contents(encoding=enc)}[ent]()
-            batch.ask("doc-bytes", f"encode {ent} {tok(enc)} sb:{tok(sb_name(enc))} {tt}", "B:" + btok(real_b), case)
+            batch.ask("doc-bytes", f"encode {ent} {tok(enc)} {lc} {tt}", "B:" + btok(real_b), case)
+            if entry == "encode":
+                # Tag.encode(encoding, errors=…): the argument reaches str.encode unchanged
+                for hname, h in HANDLERS.items():
+                    if hname == "xmlcharrefreplace":
+                        continue
+                    try:
+                        rb = "B:" + btok(root.encode(enc, errors=hname))
+                    except UnicodeEncodeError as ex:
+                        rb = f"E:{ex.start}:{ord(ex.object[ex.start])}"
+                    batch.ask("doc-errors", f"encode e{h} {tok(enc)} {lc} {tt}", rb, case | {"errors": hname})
     return found
 
 
-def check_doc_str(ctx, batch, recipe, e_enc, stream):
+def check_doc_str(ctx, batch, recipe, e_enc, stream, history=None):
     """decode() to str: untouched for eventual_encoding=None, rewritten / emptied for a name (Python-specific names included)"""
     e = E()
     BS = e["BeautifulSoup"]
-    soup = build_doc(recipe)
+    soup = apply_history(build_doc(recipe), history)
     case = {"op": "doc-str", "recipe": recipe, "eventual_encoding": e_enc}
+    if history:
+        case["history"] = history
     found = []
     try:
         s = soup.decode(eventual_encoding=e_enc)
@@ -914,6 +1056,9 @@ def check_doc_str(ctx, batch, recipe, e_enc, stream):
         return found
     info = recipe["meta"]
     style = info["style"]
+    # classifier of the pickle finding: the case itself says that a pickle round trip came before, and the check is the
+    # "left alone" one (eventual_encoding=None)
+    kf_p = KF_PICKLE if e_enc is None and any(st[0] == "pickle" for st in (history or [])) else None
     again = BS(s, "html.parser")
     m2 = again.find("meta")
     if style != "none":
@@ -927,7 +1072,7 @@ def check_doc_str(ctx, batch, recipe, e_enc, stream):
             what = ("decode() without a target encoding changed the declaration" if e_enc is None else
                     "decode(eventual_encoding=e) did not rewrite the declaration (empty / removed for a Python-specific e)")
             found.append(what)
-            report(ctx, what, case=case, expected=want, observed=got, stream=stream)
+            report(ctx, what, case=case, expected=want, observed=got, stream=stream, kf=kf_p)
     if style == "charset" and info.get("both") and m2 is not None:
         got = m2.get("content")
         want = ("text/html; charset=" + info["orig"] if e_enc is None else
@@ -935,11 +1080,25 @@ def check_doc_str(ctx, batch, recipe, e_enc, stream):
         if got != want:
             what = "a <meta> carrying both declaration styles: decode() did not treat the one in `content` like the charset attribute"
             found.append(what)
-            report(ctx, what, case=case, expected=want, observed=got, stream=stream)
+            report(ctx, what, case=case, expected=want, observed=got, stream=stream, kf=kf_p)
     ctx.count("doc-str:" + ("none" if e_enc is None else "python-specific" if e_enc in PROP_PYTHON_SPECIFIC else "named") + ":" + style)
     ctx.case(("doc-str", json.dumps(recipe, sort_keys=True), e_enc) if style != "none" else None)
     if batch is not None:
-        batch.ask("doc-render", f"render d {'N' if e_enc is None else tok(e_enc)} {tree_tokens(soup.html)}", tok(soup.html.decode(eventual_encoding=e_enc)), case)
+        tt = tree_tokens(soup.html)
+        batch.ask("doc-render", f"render d {'N' if e_enc is None else tok(e_enc)} {tt}", tok(soup.html.decode(eventual_encoding=e_enc)), case)
+        if e_enc is None:
+            # the str-returning entry points with their defaults (eventual_encoding = DEFAULT_OUTPUT_ENCODING, not None)
+            batch.ask("doc-str-defaults", f"render s N {tt}", tok(str(soup.html)), case | {"call": "str(tag)"})
+            batch.ask("doc-str-defaults", f"render ps N {tt}", tok(soup.html.prettify()), case | {"call": "tag.prettify()"})
+            batch.ask("doc-str-defaults", f"render cs N {tt}", tok(soup.html.decode_contents()), case | {"call": "tag.decode_contents()"})
+            if style != "none":
+                m3 = BS(str(soup), "html.parser").find("meta")
+                got = m3.get("charset") if style == "charset" else m3.get("content")
+                want = "utf-8" if style == "charset" else content_expected(info["parts"], "utf-8", False)
+                if got != want:
+                    found.append("str() default")
+                    report(ctx, "str(soup) (eventual_encoding defaults to utf-8) does not name utf-8 in the declaration", case=case,
+                           expected=want, observed=got, stream=stream)
     return found
 
 
@@ -947,8 +1106,50 @@ def gen_recipe(r, enc, ctx):
     return {"meta": meta_markup(r), "items": gen_items(r, enc, ctx, 0, [0])}
 
 
+def rand_history(r):
+    steps = []
+    for _ in range(r.choice([1, 2, 3, 4])):
+        k = r.random()
+        if k < 0.45:
+            steps.append(["call", r.choice(ENTRIES[:3]), r.choice(["koi8-r", "utf-8", "ascii", "shift_jis", "utf-16", "866", "latin-1"])])
+        elif k < 0.6:
+            steps.append(["decode", r.choice([None, "big5", "idna", "utf-8"])])
+        elif k < 0.7:
+            steps.append(["str"])
+        else:
+            steps.append([r.choice(["copy", "deepcopy", "pickle"])])
+    return steps
+
+
+def stream_history(ctx, batch):
+    """the same object rendered several times (different targets, str in between), and copies / pickles of it"""
+    r = ctx.rng("history")
+    for i in range(ctx.n(500, 3000)):
+        enc = pick_encoding(r)
+        if not facts(enc).ascii_ok:
+            continue
+        recipe = gen_recipe(r, enc, ctx)
+        if recipe["meta"]["style"] == "none" and r.random() < 0.8:
+            continue
+        hist = rand_history(r)
+        check_doc(ctx, batch, recipe, enc, r.choice(ENTRIES), "history", history=hist)
+        check_doc_str(ctx, batch, recipe, r.choice([None, None, "idna", pick_encoding(r)]), "history", history=hist)
+        for st in hist:
+            ctx.count("history:step:" + st[0])
+        if len(batch.q) > 3000:
+            batch.flush()
+    batch.flush()
+
+
 def stream_docs(ctx, batch):
     r = ctx.rng("docs")
+    # directed: every formatter x every declaration of NAME_METAS plus an empty HTML5 declaration x a few targets
+    for fm in ("html", "html5"):
+        for meta in NAME_METAS + [dict(markup='<meta charset="">', style="charset", orig="")]:
+            for enc in ("koi8-r", "ascii", "utf-8", "shift_jis", "866"):
+                recipe = {"meta": meta, "items": [{"name": "p", "id": "n1", "attrs": [["title", "é & \"☃\"", None]],
+                                                   "kids": [{"text": "я < é ☃", "bait": None}]}]}
+                check_doc(ctx, batch, recipe, enc, r.choice(ENTRIES[:3]), "docs-formatter", formatter=fm)
     n = ctx.n(2500, 15000)
     for i in range(n):
         enc = pick_encoding(r)
@@ -957,7 +1158,9 @@ def stream_docs(ctx, batch):
         recipe = gen_recipe(r, enc, ctx)
         for entry in (ENTRIES if i % 3 == 0 else r.sample(ENTRIES, 2)):
             check_doc(ctx, batch, recipe, enc, entry, "docs")
-        e_enc = r.choice([None, None, r.choice(PROP_PYTHON_SPECIFIC), pick_encoding(r)])
+        if i % 4 == 0:
+            check_doc(ctx, batch, recipe, enc, r.choice(ENTRIES), "docs-formatter", formatter=r.choice(["html", "html5"]))
+        e_enc = r.choice([None, None, r.choice(PROP_PYTHON_SPECIFIC), pick_encoding(r), ""])
         check_doc_str(ctx, batch, recipe, e_enc, "docs")
         if len(batch.q) > 3000:
             batch.flush()
@@ -1094,6 +1297,49 @@ def stream_misc(ctx, batch):
     batch.flush()
 
 
+def stream_codecs(ctx, batch):
+    """the strict decoders of the Lean UTF codecs against CPython on valid, damaged and random bytes; BOM sniffing against
+    EncodingDetector.strip_byte_order_mark"""
+    from bs4.dammit import EncodingDetector
+    r = ctx.rng("codecs")
+    for i in range(ctx.n(3000, 20000)):
+        name = r.choice(list(UTF_LEAN))
+        k = r.random()
+        if k < 0.5:
+            txt = "".join(rand_char(r) for _ in range(r.choice([0, 1, 2, 4])))
+            b = bytearray(txt.encode(name, "replace"))
+            if b and r.random() < 0.6:   # damage it
+                for _ in range(r.choice([1, 1, 2])):
+                    if not b:
+                        break
+                    op = r.random()
+                    j = r.randrange(len(b))
+                    if op < 0.4:
+                        b[j] = r.choice([0x80, 0xBF, 0xC0, 0xC1, 0xC2, 0xE0, 0xED, 0xF0, 0xF4, 0xF5, 0xFF, 0xD8, 0xDC, 0xDF, 0x00, 0x10, 0x11, r.randrange(256)])
+                    elif op < 0.7:
+                        del b[j]
+                    else:
+                        b.insert(j, r.choice([0x80, 0xA0, 0xFE, 0xFF, 0x00, r.randrange(256)]))
+            b = bytes(b)
+        else:
+            b = bytes(r.choice([0x00, 0x41, 0x7F, 0x80, 0x9F, 0xA0, 0xBF, 0xC0, 0xC2, 0xDF, 0xE0, 0xEC, 0xED, 0xEF, 0xF0, 0xF4, 0xF5, 0xFE, 0xFF,
+                                0xD8, 0xDB, 0xDC, 0xDF, 0x10, 0x11, r.randrange(256)]) for _ in range(r.choice([1, 2, 3, 4, 5, 8])))
+        try:
+            real = tok(b.decode(name))
+        except UnicodeDecodeError:
+            real = "N"
+        ctx.count("codecs:decode:" + ("rejected" if real == "N" else "accepted"))
+        batch.ask("codecs-decode", f"dec utf:{tok(name)} {btok(b)}", real, {"op": "decode", "encoding": name, "bytes": list(b)})
+        ctx.case(("dec", name, b) if real == "N" else None)
+    boms = [b"\xff\xfe", b"\xfe\xff", b"\xef\xbb\xbf", b"\xff\xfe\x00\x00", b"\x00\x00\xfe\xff", b"\xff", b"\xef\xbb", b"\x00\x00\xfe", b""]
+    for i in range(ctx.n(600, 3000)):
+        b = r.choice(boms) + bytes(r.choice([0, 0, 0x3C, 0x41, 0xFE, 0xFF, r.randrange(256)]) for _ in range(r.choice([0, 0, 1, 2, 3, 5])))
+        real = EncodingDetector.strip_byte_order_mark(b)[1] or "N"
+        batch.ask("codecs-sniff", f"sniff {btok(b)}", real, {"op": "sniff", "bytes": list(b)})
+        ctx.case(("sniff", b) if real != "N" else None)
+    batch.flush()
+
+
 def stream_corpus(ctx, batch):
     from .common import CORPUS
     d = CORPUS / "C08"
@@ -1103,7 +1349,7 @@ def stream_corpus(ctx, batch):
         v = json.loads(f.read_text())
         c = v.get("case", v)
         if c.get("op") == "doc":
-            check_doc(ctx, batch, c["recipe"], c["encoding"], c["entry"], "corpus")
+            check_doc(ctx, batch, c["recipe"], c["encoding"], c["entry"], "corpus", history=c.get("history"))
         elif c.get("op") == "subst":
             check_subst(ctx, batch, c["content"], c["eventual_encoding"], v.get("expected"), "corpus")
         ctx.count("corpus:cases")
@@ -1133,9 +1379,11 @@ def run(ctx: Ctx):
     stream_subst(ctx, batch)
     stream_setup(ctx, batch)
     stream_names(ctx, batch)
+    stream_codecs(ctx, batch)
     stream_xcr(ctx, batch)
     stream_reader(ctx, batch)
     stream_misc(ctx, batch)
+    stream_history(ctx, batch)
     stream_docs(ctx, batch)
     if "unlawful_pairs" in ctx.extra:
         ctx.extra["unlawful_pairs"] = {k: sorted(v)[:40] for k, v in ctx.extra["unlawful_pairs"].items()}
@@ -1156,7 +1404,10 @@ def replay(path):
         soup = build_doc(c["recipe"])
         print("document:", ascii(soup.decode(eventual_encoding=None)))
         print(f"call: {c['entry']}({c['encoding']!r})")
-        found = check_doc(ctx, None, c["recipe"], c["encoding"], c["entry"], "replay")
+        if c.get("history"):
+            print("after:", c["history"])
+        found = check_doc(ctx, None, c["recipe"], c["encoding"], c["entry"], "replay", history=c.get("history"),
+                          formatter=c.get("formatter", "minimal"))
         for what, exp, obs, kf in found:
             print(("KNOWN-FINDING " + kf if kf else "VIOLATION") + ":", what)
             print("   property demands:", exp)
@@ -1170,7 +1421,7 @@ def replay(path):
         except Exception as ex:
             shown = "raised " + repr(ex)
         print(f"call: decode(eventual_encoding={c['eventual_encoding']!r}) ->", shown)
-        found = check_doc_str(ctx, None, c["recipe"], c["eventual_encoding"], "replay")
+        found = check_doc_str(ctx, None, c["recipe"], c["eventual_encoding"], "replay", history=c.get("history"))
         for w in found:
             print("VIOLATION:", w)
         print("   property demands:", v.get("expected"), "\n   implementation:  ", v.get("observed"))
